@@ -40,6 +40,23 @@ MODES = ['everyone', 'friends', 'users']
 F_SEARCHES, F_SHARES, F_UPLOADS = 4, 8, 32
 FLAG_CHOICES = [32, 32, 32, 4, 4, 8, 36, 40, 12, 44, 63, 1, 16, 3]
 TASK_METHODS = ['initialize', 'start_transferring', 'complete', 'fail', 'pause']
+# calls a `begin` op can make and suspend while they hold the upload's state lock
+FLIGHT_CALLS = ['pause', 'pause', 'pause', 'abort', 'abort', 'requeue', 'initialize', 'start_transferring', 'complete', 'fail']
+
+
+# calls the state an upload is left in by the last method of its recipe accepts (generator hint only)
+_ACCEPTED = {'': ['pause', 'pause', 'abort', 'abort', 'initialize', 'fail'],
+             'initialize': ['pause', 'pause', 'abort', 'abort', 'start_transferring', 'fail', 'requeue'],
+             'start_transferring': ['pause', 'pause', 'pause', 'abort', 'abort', 'complete', 'fail'],
+             'pause': ['abort', 'abort', 'requeue', 'requeue', 'fail'], 'ABORT': ['requeue'], 'REVOKED': ['requeue'],
+             'complete': ['requeue'], 'fail': ['requeue']}
+
+
+def _shows_finished(what: str, phase: str) -> bool:
+    """the suspended call leaves the upload SHOWING a state the management cycle takes for settled (ABORTED on the user's
+    request, COMPLETE, FAILED) while its lock is still held: a re-queue waiting behind that lock runs after the cycle
+    looked — known finding (proposed) C08-requeue-behind-state-lock-not-reevaluated, kept out of the generated cases"""
+    return phase == 'notify' and what in ('abort', 'complete', 'fail')
 CONFIG_OPS = ('friends', 'blocked', 'share', 'unshare', 'mode')
 LIVE_CONFIG_OPS = ('sfriends', 'sblocked', 'reload')      # through the settings; `scan` changes nothing the truth tracks
 SETTLE = 2.0        # a `wait` of at least this long is a settled point: >= 1 poll of the user manager (every 1 s) and
@@ -239,13 +256,35 @@ def _gen_case(rng: random.Random) -> dict:
 
     specs_used: list[tuple[int, dict]] = []
     n = rng.choice([6, 10, 14, 18, 24])
+    flights: list[int] = []              # uploads with a suspended state method (their state lock is held)
+    no_requeue: set = set()              # ... that shows a finished state meanwhile (see _shows_finished)
+    p_flight = rng.choice([0.0, 0.0, 0.06, 0.12])
+
+    def end_flights(keep=0):
+        while len(flights) > keep:
+            ops.append(['end', flights.pop(rng.randrange(len(flights)))])
+            no_requeue.discard(ops[-1][1])
+
     for _ in range(n):
         r = rng.random()
+        if uploads and rng.random() < p_flight:
+            if flights and rng.random() < 0.45:
+                end_flights(len(flights) - 1)
+            else:
+                k = min(rng.randrange(min(uploads, 6)), rng.randrange(min(uploads, 6)))    # (requests may have been refused)
+                what, phase = rng.choice(FLIGHT_CALLS), rng.choice(['cancel', 'notify'])
+                if k in no_requeue and what == 'requeue':
+                    what = 'pause'
+                ops.append(['begin', k, what, phase])
+                if k not in flights:
+                    flights.append(k)       # (may over-count: a refused call holds nothing; `end` then says so)
+                    if _shows_finished(what, phase):
+                        no_requeue.add(k)
         if r < 0.22 and nchanges < max_changes:
             nchanges += 1
             ops.append(gen_change())
             x = rng.random()
-            if x < 0.3 and nchanges < max_changes:
+            if x < 0.3 and nchanges < max_changes and not flights:
                 # a second change arrives while the cycle the first one asked for is suspended at an await
                 nchanges += 1
                 ops.append(['cycle*', rng.choice(['track', 'track', 'state']), [gen_change()]])
@@ -288,14 +327,139 @@ def _gen_case(rng: random.Random) -> dict:
             x = rng.random()
             if x < 0.55:
                 ops.append(['meth', k, rng.choice(TASK_METHODS)])
-            elif x < 0.8:
+            elif x < 0.8 or k in no_requeue:
                 ops.append(['abort', k])
             else:
                 ops.append(['requeue', k])
         else:
             ops.append(['cycle'])
+    if flights:
+        end_flights()
+        ops.append(['cycle'])
     ops.append(['cycle'])
     return {'cap': rng.choice([1, 2, 3, 100, 100, 100]), 'files': files, 'ops': ops}
+
+
+def _gen_inflight_case(rng: random.Random) -> dict:
+    """Aimed at the state lock: an everyone / friends / users directory, 1..3 uploads driven into chosen states (also
+    aborted by the user, aborted by a cycle for Blocked / File not shared); then a call — pause, the user's abort or
+    re-queue, a method of the upload's task — is made on one of them and SUSPENDED while it holds the upload's state lock
+    (waiting for the task it cancelled, or inside the transition while the listeners are told). While it is suspended: a
+    configuration change that revokes (or gives back) the permission, the management cycle this asks for (its transitions
+    wait for the lock, the job with them), sometimes more calls on the same upload (they wait too), calls on the other
+    uploads, further changes, another cycle (busy). Then the holder goes on, cycles until idle, sometimes the change is
+    undone and a last cycle runs."""
+    w = rng.choice(['song', 'Song', 'LIVE', 'café'])
+    files = ['pub/' + c07._gen_name(rng, 2) + ' ' + w + '.mp3', 'fr/' + w + ' ' + c07._gen_name(rng, 2) + '.flac',
+             'us/' + c07._gen_name(rng, 1) + '_' + w + ' x.ogg']
+    ops: list = [['friends', [0, 1]], ['share', 'pub', 'everyone', []], ['share', 'fr', 'friends', []],
+                 ['share', 'us', 'users', [0, 2]]]
+    entitled = {'pub': [0, 1, 2], 'fr': [0, 1], 'us': [0, 2]}
+    plan: list = []
+    for _ in range(rng.choice([1, 1, 2, 3])):
+        d = rng.choice(['pub', 'pub', 'fr', 'us'])
+        u = rng.choice(entitled[d])
+        if (u, d) not in plan:
+            plan.append((u, d))
+
+    def spec(d):
+        f = [x for x in files if x.startswith(d + '/')][0]
+        return {'d': d, 'f': f[len(d) + 1:], 'var': 'exact'}
+
+    revoke = {          # (change that takes the permission of user u for directory d away, its undoing)
+        'blocked': lambda u, d: (['blocked', {str(u): rng.choice([32, 32, 36, 63])}], ['blocked', {}]),
+        'friends': lambda u, d: (['friends', [x for x in (0, 1) if x != u]], ['friends', [0, 1]]),
+        'users': lambda u, d: (['mode', 'us', 'users', [x for x in (0, 2) if x != u]], ['mode', 'us', 'users', [0, 2]]),
+        'mode': lambda u, d: (['mode', d, 'users', []], ['mode', d, {'pub': 'everyone', 'fr': 'friends', 'us': 'users'}[d],
+                                                          [0, 2] if d == 'us' else []]),
+        'unshare': lambda u, d: (['unshare', d], ['share', d, {'pub': 'everyone', 'fr': 'friends', 'us': 'users'}[d],
+                                                  [0, 2] if d == 'us' else []]),
+    }
+
+    def revoking(u, d):
+        kinds = ['blocked', 'blocked', 'mode', 'unshare'] + (['friends'] * 2 if d == 'fr' else []) + \
+            (['users'] * 2 if d == 'us' else [])
+        return revoke[rng.choice(kinds)](u, d)
+
+    recipes = [[], ['initialize'], ['initialize'], ['initialize', 'start_transferring'], ['initialize', 'start_transferring'],
+               ['initialize', 'start_transferring'], ['pause'], ['initialize', 'start_transferring', 'pause'], ['ABORT'],
+               ['REVOKED'], ['REVOKED'], ['initialize', 'start_transferring', 'complete'], ['initialize', 'fail']]
+    restore: list = []
+    accepted = _ACCEPTED
+    last: list = []
+    for k, (u, d) in enumerate(plan):
+        ops.append([rng.choice(['queue', 'treq']), u, spec(d)])
+        recipe = rng.choice(recipes)
+        last.append(recipe[-1] if recipe else '')
+        for m in recipe:
+            if m == 'ABORT':
+                ops.append(['abort', k])
+            elif m == 'REVOKED':
+                # aborted by a cycle: the permission is taken away now (given back during / after the suspension)
+                a, b = revoking(u, d)
+                ops += [a, ['cycle']]
+                restore.append(b)
+            else:
+                ops.append(['meth', k, m])
+    ops.append(['cycle'])
+    k = rng.randrange(len(plan))
+    u, d = plan[k]
+    ops.append(['begin', k, rng.choice(accepted[last[k]]) if rng.random() < 0.9 else rng.choice(FLIGHT_CALLS),
+                rng.choice(['cancel', 'cancel', 'notify'])])
+    open_ = [k]
+    no_requeue = {k} if _shows_finished(ops[-1][2], ops[-1][3]) else set()
+    a, b = revoking(u, d)
+    during: list = []
+    if restore and rng.random() < 0.7:
+        during.append(restore.pop())
+    if rng.random() < 0.8 or not during:
+        during.append(a)
+        restore.append(b)
+    seq: list = []
+    for ch in during:
+        seq.append(ch)
+        if rng.random() < 0.85:
+            seq.append(['cycle'])
+    for _ in range(rng.choice([0, 0, 1, 2, 3])):
+        x = rng.random()
+        kk = k if rng.random() < 0.6 else rng.randrange(len(plan))
+        if x < 0.3:
+            item = ['meth', kk, rng.choice(TASK_METHODS)]
+        elif x < 0.45:
+            item = ['abort', kk]
+        elif x < 0.6 and kk not in no_requeue:
+            item = ['requeue', kk]
+        elif x < 0.72:
+            item = ['cycle']
+        elif x < 0.82:
+            uu, dd = rng.choice(plan)
+            item = [rng.choice(['queue', 'treq']), uu, spec(dd)]
+        elif x < 0.92 and len(plan) > 1:
+            kk = rng.choice([i for i in range(len(plan)) if i not in open_] or [k])
+            item = ['begin', kk, rng.choice([c for c in FLIGHT_CALLS if c != 'requeue' or kk not in no_requeue]),
+                    rng.choice(['cancel', 'notify'])]
+            if kk not in open_:
+                open_.append(kk)
+                if _shows_finished(item[2], item[3]):
+                    no_requeue.add(kk)
+        else:
+            item = rng.choice(list(revoke.values()))(*rng.choice(plan))[rng.choice([0, 1])]
+        seq.insert(rng.randrange(len(seq) + 1), item)
+    ops += seq
+    rng.shuffle(open_)
+    for kk in open_:
+        ops.append(['end', kk])
+        if rng.random() < 0.3:
+            ops.append(['cycle'])
+    ops.append(['cycle'])
+    if rng.random() < 0.6:
+        for bch in restore:
+            ops.append(bch)
+        ops.append(['cycle'])
+        if rng.random() < 0.3:
+            ops += [['search', rng.choice([0, 1, 2]), c07._recase(rng, w), 'file']]
+    ops.append(['cycle'])
+    return {'cap': 100, 'files': files, 'ops': ops}
 
 
 def _gen_states_case(rng: random.Random) -> dict:
@@ -397,11 +561,34 @@ class _LiveGen:
         self.since = {'f': 99.0, 'b': 99.0}  # virtual seconds since settings.users.friends / .blocked were last changed
         self.uploads: list = []              # (user, spec) in creation order (may over-count: refused requests)
         self.api_only = False
+        self.flights: list = []              # uploads with a suspended state method (may over-count: refused calls)
+        self.no_requeue: set = set()         # ... that shows a finished state meanwhile (see _shows_finished)
+        self.p_flight = 0.0
 
     def wait(self, dt):
+        if dt >= SETTLE:
+            self.end_all()                   # a settled point: nothing is in flight
         self.ops.append(['wait', dt])
         for k in self.since:
             self.since[k] += dt
+
+    def begin(self, k=None, what=None, phase=None):
+        rng = self.rng
+        if k is None:
+            k = rng.randrange(min(len(self.uploads), 6)) if self.uploads else 0
+        what, phase = what or rng.choice(FLIGHT_CALLS), phase or rng.choice(['cancel', 'notify'])
+        if k in self.no_requeue and what == 'requeue':
+            what = 'pause'
+        self.ops.append(['begin', k, what, phase])
+        if k not in self.flights:
+            self.flights.append(k)
+            if _shows_finished(what, phase):
+                self.no_requeue.add(k)
+
+    def end_all(self, keep=0):
+        while len(self.flights) > keep:
+            self.ops.append(['end', self.flights.pop(self.rng.randrange(len(self.flights)))])
+            self.no_requeue.discard(self.ops[-1][1])
 
     def settle(self):
         self.wait(self.rng.choice([2.0, 2.5, 3.0]))
@@ -431,11 +618,15 @@ class _LiveGen:
         rng = self.rng
         if not self.uploads:
             return self.request()
+        if rng.random() < self.p_flight:
+            if self.flights and rng.random() < 0.4:
+                return self.end_all(len(self.flights) - 1)
+            return self.begin()
         k = rng.randrange(min(len(self.uploads), 6))
         x = rng.random()
         if x < 0.6:
             self.ops.append(['meth', k, rng.choice(TASK_METHODS)])
-        elif x < 0.8:
+        elif x < 0.8 or k in self.no_requeue:
             self.ops.append(['abort', k])
         else:
             self.ops.append(['requeue', k])
@@ -562,6 +753,8 @@ class _LiveGen:
                 self.drive()
 
     def case(self):
+        if self.flights:
+            self.settle()
         return {'live': True, 'cap': self.rng.choice([100, 100, 100, 2]), 'files': self.files, 'ops': self.ops}
 
 
@@ -580,6 +773,7 @@ def _gen_live_case(rng: random.Random) -> dict:
     cand = cand[:4]
     g = _LiveGen(rng, files, cand)
     g.api_only = rng.random() < 0.25
+    g.p_flight = rng.choice([0.0, 0.0, 0.15, 0.3])
     if rng.random() < 0.7:
         g.friends = _gen_users(rng)
         if g.friends:
@@ -614,6 +808,7 @@ def _gen_live_states_case(rng: random.Random) -> dict:
              'us/' + c07._gen_name(rng, 1) + '_' + w + ' x.ogg', 'us/in/' + w + ' y.ogg']
     g = _LiveGen(rng, files, ['pub', 'fr', 'us', 'us/in'])
     g.api_only = rng.random() < 0.15
+    g.p_flight = rng.choice([0.0, 0.0, 0.15, 0.3])
     g.friends = [0, 1]
     g.ops.append(['sfriends', rng.choice(['assign', 'inplace']), [0, 1]])
     base = {'pub': ('everyone', []), 'fr': ('friends', []), 'us': ('users', [0, 2])}
@@ -652,7 +847,13 @@ def _gen_live_states_case(rng: random.Random) -> dict:
     return g.case()
 
 
-def _gen_live_directed(rng: random.Random) -> dict:
+def _gen_live_inflight(rng: random.Random) -> dict:
+    """`_gen_live_directed` with a state method of the upload SUSPENDED (its state lock held) from before the change until
+    after the poll / the management job the change leads to have had time to run"""
+    return _gen_live_directed(rng, inflight=True)
+
+
+def _gen_live_directed(rng: random.Random, inflight: bool = False) -> dict:
     """short histories: two or three directories, one or two uploads in a chosen state, ONE permission-revoking change
     through a chosen path (settings entry dropped / users list edited / mode changed / friends / block list / API),
     a settled point, the change undone, a settled point"""
@@ -686,13 +887,20 @@ def _gen_live_directed(rng: random.Random) -> dict:
     spec = {'d': target, 'f': f[len(target) + 1:], 'var': 'exact'}
     g.ops.append([rng.choice(['queue', 'treq']), u, spec])
     g.uploads.append((u, spec))
-    for mth in rng.choice([[], [], ['initialize'], ['initialize', 'start_transferring'], ['pause'],
-                           ['initialize', 'start_transferring', 'pause']]):
+    recipe = rng.choice([[], [], ['initialize'], ['initialize', 'start_transferring'], ['pause'],
+                         ['initialize', 'start_transferring', 'pause']] +
+                        ([['initialize', 'start_transferring'], ['initialize']] if inflight else []))
+    for mth in recipe:
         g.ops.append(['meth', 0, mth])
     if rng.random() < 0.4:
         g.ops.append([rng.choice(['queue', 'treq']), u, {'d': 'a', 'f': 'x ' + w + '.mp3', 'var': 'exact'}])
     if rng.random() < 0.5:
         g.settle()
+    if inflight:
+        g.begin(0, rng.choice(_ACCEPTED[recipe[-1] if recipe else '']) if rng.random() < 0.9 else rng.choice(FLIGHT_CALLS),
+                rng.choice(['cancel', 'cancel', 'notify']))
+        if rng.random() < 0.2:
+            g.wait(rng.choice([0.0, 0.3, 1.2]))
     before = dict(g.shared)
     style = rng.choice(['inplace', 'inplace', 'mixed', 'assign'])
     undo: list = []
@@ -732,6 +940,19 @@ def _gen_live_directed(rng: random.Random) -> dict:
     elif kind == 'api-mode':
         g.ops.append(['mode', target, 'users', others[:1]] + rng.choice([[], ['alias']]))
         undo = [lambda: g.ops.append(['mode', target, tmode[0], list(tmode[1])] + rng.choice([[], ['alias']]))]
+    if inflight:
+        # time for the user manager's poll and the management job to run while the lock is held (or not quite)
+        w1 = rng.choice([0.0, 0.3, 1.2, 1.2, 1.5, 1.9])
+        g.wait(w1)
+        for _ in range(rng.choice([0, 0, 0, 1, 2])):
+            g.ops.append(rng.choice(([] if 0 in g.no_requeue else [['requeue', 0]]) +
+                                    [['abort', 0], ['meth', 0, rng.choice(TASK_METHODS)]]))
+        if rng.random() < 0.3 and undo and w1 >= 1.0:       # (a polled list is not changed twice within one interval)
+            for fn in undo:                 # the change is undone while the lock is still held
+                fn()
+            undo = []
+            g.wait(rng.choice([0.3, 1.2, 1.5]))
+        g.end_all()
     x = rng.random()
     if x < 0.2:
         g.wait(rng.choice([0.0, 0.3, 0.7]))
@@ -796,13 +1017,15 @@ class _ProbeQueue(asyncio.Queue):
     """TransferManager._management_queue with one observation point: `get()` returning is the instant at which
     `_management_job` wakes up and snapshots + clears the flags."""
 
-    def __init__(self, log, maxsize=0):
+    def __init__(self, log, maxsize=0, state=None):
         super().__init__(maxsize=maxsize)
         self._log = log
+        self._state = state if state is not None else {}
 
     async def get(self):
         item = await super().get()
         self._log.append('job')
+        self._state['woke'] = True        # until the job returns (probe around the job): the job is under way
         return item
 
 
@@ -829,13 +1052,33 @@ class _Users:
 
 
 class _StateGate:
-    """A TransferStateListener: when armed, a state transition made by the cycle (the abort / queue tasks gathered by
-    manage_shares_changed) suspends inside `Transfer.transition`."""
+    """A TransferStateListener. `gate` (armed by a `cycle*` op): a state transition made by the cycle (the abort / queue
+    tasks gathered by manage_shares_changed) suspends inside `Transfer.transition`. `armed` (by a `begin` op): the NEXT
+    transition of that one transfer suspends there — once."""
     gate: Optional[asyncio.Future] = None
 
+    def __init__(self):
+        self.armed: dict = {}
+
     async def on_transfer_state_changed(self, transfer, old, new):
+        fut = self.armed.pop(id(transfer), None)
+        if fut is not None:
+            if not fut.done():
+                await fut
+            return
         if self.gate is not None and not self.gate.done():
             await self.gate
+
+
+async def _winding_down(gate):
+    """Stands for the task of an upload (`_initialize_upload` / `_upload_file`) at the moment a state method cancels it:
+    the real one handles the cancellation with `await connection.disconnect(...)` — closing the file connection takes as
+    long as it takes (here: until the harness releases `gate`) — and only then ends."""
+    try:
+        await asyncio.get_running_loop().create_future()
+    except asyncio.CancelledError:
+        await gate
+        raise
 
 
 async def _drain():
@@ -873,6 +1116,7 @@ def _run_impl(case: dict) -> dict:
     obs: list = []
     live = bool(case.get('live'))
     log: list = []                 # live: 'poll' / 'job' in the order in which the real jobs ran
+    job_state = {'woke': False}     # live: _management_job woke up (took the flags) and has not returned yet
     stack = ExitStack()
 
     def ap(rel):
@@ -902,13 +1146,21 @@ def _run_impl(case: dict) -> dict:
         shares = SharesManager(settings, bus, net)
         xfer = TransferManager(settings, bus, users, shares, net)
         if live:
-            xfer._management_queue = _ProbeQueue(log, maxsize=1)
+            xfer._management_queue = _ProbeQueue(log, maxsize=1, state=job_state)
             real_poll = users._management_task.task_coro
 
             async def probed_poll(context):
                 log.append('poll')
                 return await real_poll(context)
             users._management_task.task_coro = probed_poll
+            real_job = xfer._management_task.task_coro
+
+            async def probed_job(*a):
+                try:
+                    return await real_job(*a)
+                finally:
+                    job_state['woke'] = False
+            xfer._management_task.task_coro = probed_job
         search = SearchManager(settings, bus, shares, xfer, net)
         peer = PeerManager(settings, bus, users, shares, xfer, net)
         keep = [shares, xfer, search, peer]                  # the bus holds listeners weakly
@@ -1099,6 +1351,53 @@ def _run_impl(case: dict) -> dict:
 
         passed: dict[str, list] = {}          # the users list object handed to the shares API for each directory
         state_gate = _StateGate()
+        # state methods in flight: upload index -> the suspended call that holds the state lock, the calls waiting for it
+        inflight: dict[int, dict] = {}
+        job = {'task': None}      # not live: the management job suspended in manage_shares_changed
+
+        def job_pending():
+            if live:
+                return job_state['woke']       # (asked when the loop is quiescent: under way = waiting for a state lock)
+            t = job['task']
+            if t is not None and t.done():
+                job['task'] = None
+                t.result()
+            return job['task'] is not None
+
+        def call_of(t, what):
+            if what == 'abort':
+                return xfer.abort(t)
+            if what == 'requeue':
+                return xfer.queue(t)
+            if what not in TASK_METHODS:
+                raise ValueError(what)
+            return getattr(t.state, what)()
+
+        def outcome(what, task):
+            exc = task.exception()
+            if exc is not None:
+                if isinstance(exc, InvalidStateTransition):
+                    return 'refused'
+                raise exc
+            if what in ('abort', 'requeue'):
+                return 'changed'
+            return 'changed' if task.result() else 'refused'
+
+        def call_waiting(k, t, what):
+            """a call on an upload whose state lock is held: it waits"""
+            task = loop.create_task(call_of(t, what))
+            run(settle())
+            if task.done():
+                return outcome(what, task)
+            inflight[k]['waiters'].append((what, task))
+            return 'waiting'
+
+        def named_upload(u, path):
+            """index of the upload a peer's request names (first match, as find_transfer)"""
+            for i, t in enumerate(t for t in xfer.transfers if t.is_upload()):
+                if t.username == USERS[u] and t.remote_path == path:
+                    return i
+            return None
 
         def attach_gate():
             for t in xfer.transfers:
@@ -1110,6 +1409,8 @@ def _run_impl(case: dict) -> dict:
             if live:
                 if kind in ('cycle', 'cycle*', 'friends', 'blocked'):
                     raise ValueError(f'{kind!r} is not an op of the live family: {op!r}')
+                if kind == 'wait' and op[1] >= SETTLE and inflight:
+                    raise ValueError(f'harness: a settling wait with a state method in flight: {op!r}')
                 live_before = uploads()
             if kind in CONFIG_OPS or kind in LIVE_CONFIG_OPS:
                 obs.append(config_op(op))
@@ -1121,7 +1422,69 @@ def _run_impl(case: dict) -> dict:
                     raise ValueError(op)
                 run(asyncio.sleep(op[1]))
                 obs.append({'idle': None})
+            elif kind == 'begin':
+                # a state method called on upload op[1] and SUSPENDED while it holds the upload's state lock: op[3] =
+                # 'cancel': in _cancel_transfer_tasks, waiting for the upload's task it cancelled; 'notify': inside
+                # Transfer.transition, after the state was replaced, while the listeners are told
+                k, what, phase = op[1], op[2], op[3]
+                ups = [t for t in xfer.transfers if t.is_upload()]
+                prev = uploads()
+                if k >= len(ups):
+                    res = 'no-such-upload'
+                elif k in inflight:
+                    res = call_waiting(k, ups[k], what)
+                else:
+                    t = ups[k]
+                    gate = loop.create_future()
+                    fake = None
+                    if phase == 'cancel':
+                        if not (hasattr(t, '_transfer_task') and hasattr(t, '_transfer_task_complete')):
+                            # the slot the manager keeps an upload's task in is gone (renamed): the harness cannot stand
+                            # in for the task — reported as a correspondence that no longer checks, not as a violation
+                            return {'SKIP': 'harness-no-task-slot', 'alias': alias}
+                        if t._transfer_task is not None:
+                            raise ValueError(f'harness: upload {k} has a task already')
+                        fake = loop.create_task(_winding_down(gate))
+                        t._transfer_task = fake
+                        fake.add_done_callback(t._transfer_task_complete)     # as manage_transfers does
+                        run(settle())
+                    elif phase == 'notify':
+                        attach_gate()
+                        state_gate.armed[id(t)] = gate
+                    else:
+                        raise ValueError(op)
+                    task = loop.create_task(call_of(t, what))
+                    run(settle())
+                    if task.done():
+                        res = outcome(what, task)
+                        state_gate.armed.pop(id(t), None)
+                        if fake is not None and not fake.done():
+                            fake.cancel()
+                            gate.set_result(None)
+                            run(settle())
+                    else:
+                        inflight[k] = {'gate': gate, 'task': task, 'what': what, 'waiters': [], 'phase': phase}
+                        res = 'suspended'
+                obs.append({'res': res, 'before': prev, 'uploads': uploads(), 'flag': flag()})
+            elif kind == 'end':
+                prev = uploads()
+                fl = inflight.pop(op[1], None)
+                results = []
+                if fl is None:
+                    res = 'not-in-flight'
+                else:
+                    fl['gate'].set_result(None)
+                    run(settle())
+                    tasks = [(fl['what'], fl['task'])] + fl['waiters']
+                    if any(not t.done() for _, t in tasks):
+                        raise RuntimeError(f'calls still waiting for the state lock of upload {op[1]} after its holder '
+                                           f'was released: {[w for w, t in tasks if not t.done()]}')
+                    results = [[w, outcome(w, t)] for w, t in tasks]
+                    res = 'ended'
+                obs.append({'res': res, 'results': results, 'before': prev, 'uploads': uploads(), 'flag': flag()})
             elif kind == 'cycle*':
+                if inflight or job_pending():
+                    raise ValueError(f'harness: `cycle*` with a state method in flight: {op!r}')
                 # one management cycle SUSPENDED at a real await of the job (op[1] = 'track': the user-tracking calls
                 # of manage_user_tracking; 'state': inside a state transition gathered by manage_shares_changed), the
                 # configuration ops op[2] applied during the suspension, the gate released, then cycles until idle
@@ -1203,6 +1566,10 @@ def _run_impl(case: dict) -> dict:
                     obs.append({'reply': None, 'req': req})
                 else:
                     obs.append({'reply': listing(out[0].directories), 'req': req, 'echo': out[0].directory})
+            elif kind in ('queue', 'treq') and named_upload(op[1], _resolve_path(op[2], alias)) in inflight:
+                # the request names an upload whose state lock is held: not delivered (outside the model; stated)
+                obs.append({'path': _resolve_path(op[2], alias), 'reply': 'busy', 'nreplies': 0, 'before': uploads(),
+                            'uploads': uploads(), 'flag': flag()})
             elif kind in ('queue', 'treq'):
                 c = conn(op[1])
                 before = len(c.out)
@@ -1225,11 +1592,21 @@ def _run_impl(case: dict) -> dict:
             elif kind == 'cycle':
                 prev = uploads()
                 had_flag = flag()
-                ran = not xfer._management_queue.empty()
-                if ran:
+                busy = job_pending()          # the management task runs one job after the other
+                ran = not busy and not xfer._management_queue.empty()
+                if ran and inflight:
+                    # a state lock is held: the job may have to wait for it in manage_shares_changed
+                    jt = loop.create_task(xfer._management_job())
+                    run(settle())
+                    if jt.done():
+                        jt.result()
+                    else:
+                        job['task'] = jt
+                elif ran:
                     run(xfer._management_job())
                     run(_drain())
-                obs.append({'ran': ran, 'had_flag': had_flag, 'before': prev, 'uploads': uploads(), 'flag': flag()})
+                obs.append({'ran': ran, 'busy': busy, 'had_flag': had_flag, 'before': prev, 'uploads': uploads(),
+                            'flag': flag()})
             elif kind in ('meth', 'abort', 'requeue'):
                 ups = [t for t in xfer.transfers if t.is_upload()]
                 prev = uploads()
@@ -1237,9 +1614,11 @@ def _run_impl(case: dict) -> dict:
                     res = 'no-such-upload'
                 else:
                     t = ups[op[1]]
-                    if kind == 'meth':
-                        if op[2] not in TASK_METHODS:
-                            raise ValueError(op)
+                    if kind == 'meth' and op[2] not in TASK_METHODS:
+                        raise ValueError(op)
+                    if op[1] in inflight:
+                        res = call_waiting(op[1], t, op[2] if kind == 'meth' else kind)
+                    elif kind == 'meth':
                         res = 'changed' if run(getattr(t.state, op[2])()) else 'refused'
                     else:
                         try:
@@ -1251,6 +1630,9 @@ def _run_impl(case: dict) -> dict:
                 obs.append({'res': res, 'before': prev, 'uploads': uploads(), 'flag': flag()})
             else:
                 raise ValueError(f'unknown op {op!r}')
+            if not live:
+                obs[-1]['job'] = job_pending()
+                obs[-1]['inflight'] = sorted(inflight)
             if live:
                 # whatever the op's real event path requested runs now (nothing here calls a cycle or a poll)
                 run(settle())
@@ -1262,6 +1644,8 @@ def _run_impl(case: dict) -> dict:
                 o['flag'] = flag()
                 if kind == 'wait':
                     o['idle'] = xfer._management_queue.empty() and not xfer._management_flags
+                o['job'] = job_pending()
+                o['inflight'] = sorted(inflight)
         del keep
     finally:
         stack.close()
@@ -1388,6 +1772,10 @@ def _model_lines(case: dict, alias: dict, obs: Optional[list] = None) -> tuple[l
             return f'meth {op[1]} {op[2]}'
         if k in ('abort', 'requeue'):
             return f'{k} {op[1]}'
+        if k == 'begin':
+            return f'begin {op[1]} {op[2]} {op[3]}'
+        if k == 'end':
+            return f'end {op[1]}'
         raise ValueError(op)
 
     if live:
@@ -1452,6 +1840,9 @@ def _model_lines(case: dict, alias: dict, obs: Optional[list] = None) -> tuple[l
         elif k in ('abort', 'requeue'):
             where.append(len(lines))
             lines.append(f'{k} {op[1]}')
+        elif k in ('begin', 'end'):
+            where.append(len(lines))
+            lines.append(own_line(op))
         else:
             raise ValueError(op)
     return lines, where
@@ -1465,7 +1856,13 @@ _FAIL_NAME = {'Cancelled': 'CANCELLED', 'Complete': 'COMPLETE', 'Queued': 'QUEUE
 def _show_uploads(o) -> str:
     ups = ' '.join(f'{USERS.index(u) if u in USERS else u}:{_cps(p)}:{st}:{_ABORT_NAME.get(r, repr(r))}'
                    for u, p, st, r in o['uploads'])
-    return f'flag={int(o["flag"])}|{ups}'
+    return f'flag={int(o["flag"])}|job={int(bool(o.get("job")))}|{ups}'
+
+
+def _show_ended(o) -> str:
+    if o['res'] != 'ended':
+        return o['res']
+    return 'ended:' + ','.join('c' if r == 'changed' else 'r' for _, r in o['results'])
 
 
 def _show_listing(lst) -> str:
@@ -1478,6 +1875,9 @@ def _show_listing(lst) -> str:
 
 def _cmp_request(k, o, m, head_only=False):
     r = o['reply']
+    if r == 'busy':
+        s = 'busy' if head_only else f'busy|{_show_uploads(o)}'
+        return None if s == m else (s, m)
     if r is None:
         rs = '-'
     else:
@@ -1509,8 +1909,10 @@ def _compare(case: dict, impl: dict, out: list[str], where: list):
                     d = None if o['res'] == m else (o['res'], m)
                 elif k in ('queue', 'treq'):
                     d = _cmp_request(k, o, m.split('|', 1)[0], head_only=True)
-                elif k in ('meth', 'abort', 'requeue'):
+                elif k in ('meth', 'abort', 'requeue', 'begin'):
                     d = None if o['res'] == m.split('|', 1)[0] else (o['res'], m)
+                elif k == 'end':
+                    d = None if _show_ended(o) == m.split('|', 1)[0] else (_show_ended(o), m)
                 else:
                     d = _compare({'cap': case['cap'], 'ops': [op]}, {'obs': [o]}, [m], [0])
                     d = None if d is None else d[1:]
@@ -1519,15 +1921,15 @@ def _compare(case: dict, impl: dict, out: list[str], where: list):
             s_ = _show_uploads(o)
             if s_ != out[w['show']]:
                 return (i, f'after the op and what it triggered {o.get("ev")}: {s_}', out[w['show']])
-            if k == 'wait' and op[1] >= SETTLE and not o['idle']:
+            if k == 'wait' and op[1] >= SETTLE and not o['idle'] and not o.get('inflight'):
                 return (i, 'a management cycle is still requested after a settling wait', 'idle')
             continue
         if k == 'cycle*':
             first, last = out[w['first']], out[w['last']]
             if not o['idle']:
                 return (i, 'management queue not idle after 8 more cycles', 'idle')
-            mid = _show_uploads({'uploads': o['mid'], 'flag': False}).split('|', 1)[1]
-            if mid != first.split('|', 1)[1]:
+            mid = _show_uploads({'uploads': o['mid'], 'flag': False}).split('|', 2)[2]
+            if mid != first.split('|', 2)[2]:
                 return (i, 'after the suspended cycle: ' + mid, first)
             for o2, w2, ob2 in zip(op[2], w['inner'], o['inner']):
                 if w2 < 0:
@@ -1595,11 +1997,15 @@ def _compare(case: dict, impl: dict, out: list[str], where: list):
             if d is not None:
                 return (i, d[0], d[1])
         elif k == 'cycle':
-            s = _show_uploads(o)
+            s = ('busy|' if o.get('busy') else '') + _show_uploads(o)
             if s != m:
                 return (i, s, m)
-        elif k in ('meth', 'abort', 'requeue'):
+        elif k in ('meth', 'abort', 'requeue', 'begin'):
             s = f'{o["res"]}|{_show_uploads(o)}'
+            if s != m:
+                return (i, s, m)
+        elif k == 'end':
+            s = f'{_show_ended(o)}|{_show_uploads(o)}'
             if s != m:
                 return (i, s, m)
     return None
@@ -1690,6 +2096,18 @@ def _monitor(case: dict, impl: dict) -> list[Violation]:
     # live family: what the user manager's last poll saw (known finding C08-settings-flip-within-poll-interval)
     polled = {'friends': set(), 'blocked': {}}
     flipped: list = []
+    # a cycle started after a change while a state method was in flight (its lock held) and its own transitions have to
+    # wait for that lock, the job with them: the uploads are judged when the JOB IS OVER (the reading: "after a settled
+    # management cycle") — against the uploads as they were before that cycle; uploads the harness acted upon AFTER the
+    # cycle started are left to those actions. (A job that does not have to wait is over at once and judged at once, on
+    # what the uploads show then — whatever is still in flight.)
+    deferred: Optional[dict] = None
+    touched_after: set = set()
+    # known finding (proposed) C08-requeue-behind-state-lock-not-reevaluated: calls that WAITED for an upload's state lock
+    # while a management job evaluated that upload (on the state it showed then) and changed it afterwards
+    waiting_since: dict = {}          # upload key -> [op index at which a call started to wait]
+    last_eval = -1                    # op index of the last evaluation by a management job
+    ran_late: set = set()
 
     def uname(u):
         return USERS[u]
@@ -1732,6 +2150,10 @@ def _monitor(case: dict, impl: dict) -> list[Violation]:
         return eff(t.shared.get(op[1])) != eff(old)
 
     def reconcile_violation(sig, what, observed, required):
+        if (observed[0], observed[1]) in ran_late and sig == 'C08-not-aborted':
+            sig = 'C08-requeue-behind-state-lock-not-reevaluated'
+            what += (' [a call that waited for the upload\'s state lock while the management job evaluated the upload — on '
+                     'the state it showed then — changed it afterwards; nothing evaluates it again]')
         if flipped:
             sig = 'C08-settings-flip-within-poll-interval'
             what += (f' [settings.users.{flipped[0]} was changed and changed back to what the user manager last polled '
@@ -1792,7 +2214,36 @@ def _monitor(case: dict, impl: dict) -> list[Violation]:
         # uploads aborted on the user's request stay aborted whatever anybody else does — until the user queues them again
         if 'uploads' in o:
             now = {(u, p): (st, r) for u, p, st, r in o['uploads']}
-            mine = key_of(o, op[1]) if k in ('abort', 'requeue', 'meth') else None
+            mine = key_of(o, op[1]) if k in ('abort', 'requeue', 'meth', 'begin', 'end') else None
+            if k in ('meth', 'abort', 'requeue', 'begin') and o.get('res') == 'waiting' and mine is not None:
+                waiting_since.setdefault(mine, []).append(i)
+            if k == 'end' and mine is not None:
+                issued = waiting_since.pop(mine, [])
+                late = False
+                for (what, res), at in zip(o.get('results', [])[1:], issued):
+                    if res == 'changed' and at <= last_eval:
+                        ran_late.add(mine)
+                        late = True
+                if late and not live and not changed_since_cycle and deferred is None and not o.get('flag'):
+                    # every change has had its cycle, the job is over, no cycle is requested — and this upload was
+                    # changed after the job looked at it
+                    st_, r_ = now.get(mine, (None, None))
+                    ok_, why_ = t.permitted(USERS.index(mine[0]), mine[1])
+                    if not ok_ and st_ not in ('ABORTED', 'COMPLETE', 'FAILED', None):
+                        reconcile_violation('C08-not-aborted',
+                                            f'{tag}: the upload of {mine[1]!r} to {mine[0]} is {st_} although: {why_}',
+                                            [mine[0], mine[1], st_, r_], [mine[0], mine[1], 'ABORTED', why_])
+                # the suspended call and the calls that waited behind it have run: the user's own among them count now
+                for what, res in o.get('results', []):
+                    if res == 'changed' and what == 'abort':
+                        user_aborted.add(mine)
+                    elif res == 'changed' and what == 'requeue':
+                        user_aborted.discard(mine)
+            if k == 'begin' and op[2] == 'requeue' and o.get('res') in ('changed', 'suspended') and mine is not None:
+                user_aborted.discard(mine)      # the user's re-queue is under way: the state shows QUEUED already
+            if (k == 'begin' and op[2] == 'abort' and o.get('res') in ('changed', 'suspended') and mine is not None
+                    and now.get(mine, (None, None))[0] == 'ABORTED'):
+                user_aborted.add(mine)          # the user's abort: the state shows ABORTED already (listeners being told)
             for key in sorted(user_aborted):
                 if k == 'requeue' and key == mine:
                     continue
@@ -1806,12 +2257,15 @@ def _monitor(case: dict, impl: dict) -> list[Violation]:
                 user_aborted.add(mine)
             elif k == 'requeue' and o.get('res') == 'changed' and mine is not None:
                 user_aborted.discard(mine)
-            if k in ('abort', 'requeue', 'meth') and mine is not None:
-                touched.add(mine)
-                touched_settle.add(mine)
-            elif k in ('queue', 'treq'):
-                touched.add((uname(op[1]), o['path']))
-                touched_settle.add((uname(op[1]), o['path']))
+            acted = mine if k in ('abort', 'requeue', 'meth', 'begin') else \
+                (uname(op[1]), o['path']) if k in ('queue', 'treq') and o.get('reply') != 'busy' else None
+            if acted is not None:
+                # (`end` is not an action: the calls it lets run were made earlier)
+                touched.add(acted)
+                if live:
+                    touched_settle.add(acted)
+                if deferred is not None:
+                    touched_after.add(acted)
         if vs:
             break
         if live:
@@ -1819,6 +2273,10 @@ def _monitor(case: dict, impl: dict) -> list[Violation]:
                 if ev == 'poll':
                     polled['friends'] = set(t.friends)
                     polled['blocked'] = dict(t.blocked)
+                elif ev == 'job':
+                    last_eval = i
+        elif k == 'cycle' and o.get('ran'):
+            last_eval = i
         if k in LIVE_CONFIG_OPS:
             if apply_truth(op, o):
                 changed_since_cycle = True
@@ -1827,7 +2285,7 @@ def _monitor(case: dict, impl: dict) -> list[Violation]:
             if op[1] >= SETTLE:
                 # a settled point of the live family: every change made so far has been announced by the code's own
                 # event path (or never will be) and the cycles it requested have run
-                if changed_since_cycle:
+                if changed_since_cycle and not o.get('inflight'):
                     judge(tag + ' [settled]', o, before_list=settled, skip=touched)
                 changed_since_cycle = False
                 touched.clear()
@@ -1922,12 +2380,23 @@ def _monitor(case: dict, impl: dict) -> list[Violation]:
                                             f'{tag}: an upload of {path!r} to {uname(u)} was {what} although: {why}',
                                             case, observed=o['uploads'], required='no such upload'))
         elif k == 'cycle':
-            if not changed_since_cycle:
-                continue
-            # the settings / shares changed since the last cycle: every such change requests a cycle, so one ran now
-            # (if none was requested the uploads are judged all the same — nothing will ever reconcile them)
-            changed_since_cycle = False
-            judge(tag, o)
+            if not changed_since_cycle or o.get('busy'):
+                pass                  # (busy: the job of an earlier cycle is still waiting for a state lock, nothing ran)
+            elif o.get('job'):
+                # the job waits for a state lock in manage_shares_changed: judged when it is over
+                changed_since_cycle = False
+                if deferred is None:
+                    deferred = {'before': list(o['before']), 'tag': tag}
+                    touched_after = set()
+            else:
+                # the settings / shares changed since the last cycle: every such change requests a cycle, so one ran now
+                # (if none was requested the uploads are judged all the same — nothing will ever reconcile them)
+                changed_since_cycle = False
+                if deferred is not None:
+                    judge(deferred['tag'] + ' … ' + tag, o, before_list=deferred['before'], skip=touched_after)
+                    deferred = None
+                else:
+                    judge(tag, o)
         elif k == 'cycle*':
             # a cycle suspended at one of its awaits, configuration changes during the suspension, cycles until idle:
             # at this settled point clause (4) holds against the configuration as it is NOW
@@ -1938,6 +2407,11 @@ def _monitor(case: dict, impl: dict) -> list[Violation]:
                 continue
             changed_since_cycle = False
             judge(tag + (' [suspended]' if o['suspended'] else ''), o)
+        if deferred is not None and not live and not changed_since_cycle and not o.get('job', True) and not vs:
+            # the job that waited is over, no change is waiting for a cycle
+            judge(deferred['tag'] + f' … [the job is over at op #{i}]', o, before_list=deferred['before'],
+                  skip=touched_after)
+            deferred = None
     return vs + dir_vs
 
 
@@ -2008,7 +2482,42 @@ W_FLIP = {'live': True, 'cap': 100, 'files': ['a/x one.mp3', 'b/y two.mp3'],
           'ops': [['reload', [['b', 'friends', []]], 'assign'], ['wait', 2.0],
                   ['sfriends', 'inplace', [1]], ['wait', 0.3], ['queue', 1, _SB], ['wait', 0.3],
                   ['sfriends', 'inplace', []], ['wait', 2.0]]}
-WITNESSES = [W_PHRASE, W_RECONCILE, W_SUSPENDED, W_LIVE_DROP, W_LIVE_USERS, W_LIVE_ALIAS, W_LIVE_POLL, W_LIVE_DROP_ALL]
+# state methods in flight. (1) a block while the upload is being paused (pause() waits for the upload's task to close its
+# file connection): the cycle's abort waits for the lock, the job with it (a second cycle request finds it busy), and
+# lands after the pause; then the user's own abort in flight (inside the transition) while both users are blocked;
+# (2) the same with the real poll and the real management task
+_PA = {'d': 'pub', 'f': 'a one.mp3', 'var': 'exact'}
+_PB = {'d': 'pub', 'f': 'b two.mp3', 'var': 'exact'}
+W_INFLIGHT = {'cap': 100, 'files': ['pub/a one.mp3', 'pub/b two.mp3'],
+              'ops': [['share', 'pub', 'everyone', []], ['cycle'], ['queue', 0, _PA], ['queue', 1, _PB], ['cycle'],
+                      ['meth', 0, 'initialize'], ['meth', 0, 'start_transferring'], ['begin', 0, 'pause', 'cancel'],
+                      ['blocked', {'0': 32}], ['cycle'], ['cycle'], ['meth', 1, 'pause'], ['meth', 0, 'fail'],
+                      ['end', 0], ['cycle'],
+                      ['begin', 1, 'abort', 'notify'], ['blocked', {'0': 32, '1': 32}], ['cycle'], ['end', 1], ['cycle'],
+                      ['blocked', {}], ['cycle']]}
+W_INFLIGHT2 = {'cap': 100, 'files': ['pub/a one.mp3', 'fr/b two.mp3'],
+               'ops': [['friends', [1]], ['share', 'pub', 'everyone', []], ['share', 'fr', 'friends', []], ['cycle'],
+                       ['queue', 0, _PA], ['queue', 1, {'d': 'fr', 'f': 'b two.mp3', 'var': 'exact'}], ['cycle'],
+                       ['meth', 0, 'initialize'], ['meth', 0, 'start_transferring'], ['meth', 1, 'initialize'],
+                       ['begin', 0, 'pause', 'cancel'], ['begin', 1, 'pause', 'notify'],
+                       ['blocked', {'0': 32}], ['friends', []], ['cycle'], ['requeue', 1], ['end', 1], ['end', 0],
+                       ['cycle'], ['blocked', {}], ['friends', [1]], ['cycle']]}
+W_LIVE_INFLIGHT = {'live': True, 'cap': 100, 'files': ['a/x one.mp3', 'b/y two.mp3'],
+                   'ops': [['reload', [['a', 'everyone', []], ['b', 'everyone', []]], 'assign'], ['wait', 2.0],
+                           ['queue', 1, _SB], ['meth', 0, 'initialize'], ['meth', 0, 'start_transferring'], ['wait', 2.0],
+                           ['begin', 0, 'pause', 'cancel'], ['sblocked', 'inplace', {'1': 32}], ['wait', 1.5],
+                           ['end', 0], ['wait', 2.0], ['sblocked', 'inplace', {}], ['wait', 2.0],
+                           ['begin', 0, 'initialize', 'notify'], ['reload', [['a', 'everyone', []]], 'inplace'],
+                           ['wait', 0.3], ['end', 0], ['wait', 2.0]]}
+# known finding (proposed): the user's abort is through but for its listeners (the upload shows ABORTED / Requested, its
+# lock is held), the user queues the upload again at once (the call waits), the friend is taken off the friends list, the
+# cycle looks — aborted on the user's request, nothing to do —, the listeners return, the re-queue runs
+W_STALE = {'cap': 100, 'files': ['fr/x one.mp3'],
+           'ops': [['friends', [0]], ['share', 'fr', 'friends', []], ['cycle'],
+                   ['queue', 0, {'d': 'fr', 'f': 'x one.mp3', 'var': 'exact'}], ['cycle'],
+                   ['begin', 0, 'abort', 'notify'], ['requeue', 0], ['friends', []], ['cycle'], ['end', 0], ['cycle']]}
+WITNESSES = [W_PHRASE, W_RECONCILE, W_SUSPENDED, W_LIVE_DROP, W_LIVE_USERS, W_LIVE_ALIAS, W_LIVE_POLL, W_LIVE_DROP_ALL,
+             W_INFLIGHT, W_INFLIGHT2, W_LIVE_INFLIGHT]
 
 
 class C08(Property):
@@ -2036,6 +2545,17 @@ class C08(Property):
             'the caller\'s own, edited list object; interleaved with requests, state methods, user abort / re-queue and '
             'waits of 0 .. 3 virtual seconds; two probes (management queue get(), poll job entry) give the instants at '
             'which the real job / poll ran and the model is fed `cycle` / `poll` exactly there; judged at every wait >= 2 s. '
+            'STATE METHODS IN FLIGHT (both families, plus two directed generators: 400 + 300 quick / 4000 + 3000 thorough): '
+            '`begin k <pause | abort | requeue | initialize | start_transferring | complete | fail> <cancel | notify>` makes '
+            'the call on upload k and SUSPENDS it while it holds the upload\'s state lock — `cancel`: in '
+            '_cancel_transfer_tasks, waiting for the upload\'s task it cancelled (a stand-in task that, like _upload_file, '
+            'handles its cancellation with an await: closing the file connection); `notify`: inside Transfer.transition, '
+            'after the state was replaced, in a state listener — `end k` lets it go on. Meanwhile: configuration changes, '
+            'management cycles (the real job run as a task: it waits in manage_shares_changed for the lock; further cycle '
+            'ops find it busy), more calls on the same upload (they wait for the lock, first come first served), calls on '
+            'the other uploads, other suspended calls; live: the real poll and the real management task run into the held '
+            'lock on their own. The model is fed the same ops (lock holder with its suspension point, waiting calls, the '
+            'job waiting). '
             'All from VERIF_SEED. Non-trivial: an upload was created, a request was refused, and a management '
             'cycle aborted or re-queued an upload; distinct = distinct canonical case')
     assumptions = [
@@ -2047,6 +2567,14 @@ class C08(Property):
         'FriendListChangedEvent / BlockListChangedEvent are emitted by the harness the way UserManager._management_job '
         'does after it noticed the settings change (the polling delay itself is not part of the property)',
         'target tree = /repo + fixes/C08-excluded-phrase-case.patch + fixes/C08-reload-announces-removed.patch',
+        'state methods in flight: at most one SUSPENDED call per upload at a time (any number of waiting ones); the calls '
+        'that run when a lock is released are not suspended again; a peer\'s request that names an upload whose state lock '
+        'is held is not delivered (`busy` on both sides — the handlers read the state and call fail() / queue() across '
+        'their own awaits: the atomicity of the handlers is not part of the model); the upload\'s task is a stand-in that '
+        'only reproduces how the real one ends when cancelled (after an await); the generated cases do not put a re-queue '
+        'behind the lock of an upload that SHOWS ABORTED / COMPLETE / FAILED while its listeners are still being told '
+        '(known finding, proposed: C08-requeue-behind-state-lock-not-reevaluated, witness W_STALE); a cycle is judged '
+        'when its job is over (the reading: after a settled management cycle)',
         'live family: a change of settings.shares.directories is complete when load_from_settings() has been called (there '
         'is no polling of that setting); add_shared_directory / load_from_settings and the scan_directory_files calls that '
         'populate the new directories are one step (the index is complete before the cycle the addition requested runs: '
@@ -2062,7 +2590,12 @@ class C08(Property):
                 '_on_peer_transfer_request (upload direction), _add_upload, _evaluate_aborted_state, manage_shares_changed, '
                 'the SHARES_CHANGE flag of _management_job; load_from_settings (fixed), scan, the user manager\'s polling job '
                 '(UserManagementContext copies, the two events); state methods through the generated transfer table; '
-                'condition order, skipped / re-queued states, fail_reason_map, blocking flags per gate regenerated by AST. '
+                'the transfer\'s _state_lock (_with_state_lock, first come first served), the two places a state method '
+                'is suspended at while holding it (_cancel_transfer_tasks, Transfer.transition), manage_shares_changed '
+                'deciding on what a locked upload shows and its calls waiting for the lock, the job waiting with them; '
+                'condition order, skipped / re-queued states, fail_reason_map, blocking flags per gate regenerated by AST '
+                'cross-checked against a behavioural reading of the real managers (the reading itself when the source was '
+                'rewritten). '
                 'Not modelled: _initialize_upload/_upload_file (serving), file sizes/attributes, vanished files, '
                 'alias collisions, the atomicity of _add_upload across its awaits')
 
@@ -2079,6 +2612,13 @@ class C08(Property):
         rng2 = random.Random(f'C08-live-{seed}')
         for i in range((900 if tier == 'quick' else 9000) * widen):
             cases.append([_gen_live_case, _gen_live_states_case, _gen_live_directed][i % 3](rng2))
+        # state methods in flight (their own streams)
+        rng3 = random.Random(f'C08-inflight-{seed}')
+        for i in range((400 if tier == 'quick' else 4000) * widen):
+            cases.append(_gen_inflight_case(rng3))
+        rng4 = random.Random(f'C08-live-inflight-{seed}')
+        for i in range((300 if tier == 'quick' else 3000) * widen):
+            cases.append(_gen_live_inflight(rng4))
         return cases
 
     def correspondence(self, seed, tier, model_ok, widen=1):
@@ -2108,6 +2648,10 @@ class C08(Property):
             exc = 'EXC' in io or 'SKIP' in io
             if 'SKIP' in io:
                 res.count('skipped:' + io['SKIP'])
+                if io['SKIP'].startswith('harness-'):
+                    res.disagreements.append(Disagreement(c, 'the harness cannot attach a stand-in for the upload\'s task',
+                                                          'Transfer._transfer_task / _transfer_task_complete',
+                                                          'a `begin … cancel` op'))
             res.count('ops', len(c['ops']))
             for op in c['ops']:
                 res.count('op:' + op[0])
@@ -2134,7 +2678,23 @@ class C08(Property):
                                 if b.get((u, p)) != (st, r) and op[0] not in ('meth', 'abort', 'requeue'):
                                     cyc += 1
                                     res.count(f'live-cycle-change:{b.get((u, p), ("?",))[0]}->{st}:{r}')
-                    if op[0] in ('queue', 'treq'):
+                    if op[0] == 'begin':
+                        res.count(f'begin:{op[2]}:{op[3]}:{o["res"]}')
+                    elif op[0] == 'end':
+                        res.count('end:' + ('not-in-flight' if o['res'] != 'ended' else f'{len(o["results"]) - 1}-waiters'))
+                        b = {(u, p): (st, r) for u, p, st, r in o['before']}
+                        for u, p, st, r in o['uploads']:
+                            if b.get((u, p)) != (st, r):
+                                res.count(f'end-change:{b.get((u, p), ("?",))[0]}->{st}:{r}')
+                                if st == 'ABORTED' and r in ('Blocked', 'File not shared'):
+                                    cyc += 1            # the cycle's own abort, run when the lock was released
+                    elif op[0] in ('meth', 'abort', 'requeue') and o.get('res') == 'waiting':
+                        res.count(f'waiting:{op[2] if op[0] == "meth" else op[0]}')
+                    if o.get('job'):
+                        res.count('job-waits-for-a-state-lock (ops)')
+                    if op[0] in ('queue', 'treq') and o.get('reply') == 'busy':
+                        res.count('request:busy')
+                    elif op[0] in ('queue', 'treq'):
                         if len(o['uploads']) > len(o['before']):
                             created += 1
                             res.count('request:created')
@@ -2144,6 +2704,9 @@ class C08(Property):
                         else:
                             res.count('request:silent')
                     elif op[0] in ('cycle', 'cycle*'):
+                        if op[0] == 'cycle' and o.get('busy'):
+                            res.count('cycle:busy')
+                            continue
                         if op[0] == 'cycle*':
                             res.count('cycle*:' + (('suspended-at-' + op[1]) if o['suspended'] else 'not-suspended')
                                       + ('+change' if any(x.get('changed') or x.get('res') == 'ok' for x in o['inner']) else ''))
@@ -2180,7 +2743,8 @@ class C08(Property):
 
     def known_witnesses(self):
         # (each is replayed only while known_findings.json lists its signature)
-        return [('C08-directory-reply-ignores-lock', W_DIRREPLY), ('C08-settings-flip-within-poll-interval', W_FLIP)]
+        return [('C08-directory-reply-ignores-lock', W_DIRREPLY), ('C08-settings-flip-within-poll-interval', W_FLIP),
+                ('C08-requeue-behind-state-lock-not-reevaluated', W_STALE)]
 
 
 PROPERTY = C08()
